@@ -116,50 +116,73 @@ def extraction_extra(ur):
 
 
 # ------------------------------------------------------------------ replay decoders
-def dt_json(vals, i):
-    """any_dt(): year i32, ordinal u16, h u8, m u8, s u8, ns u32, oh i8, om i8, os i8 (9 values from index i)"""
-    def le(b, signed=False):
-        return int.from_bytes(bytes(b), "little", signed=signed)
-    return {"year": le(vals[i], True), "ordinal": le(vals[i + 1]), "h": le(vals[i + 2]), "m": le(vals[i + 3]), "s": le(vals[i + 4]),
-            "ns": le(vals[i + 5]), "off": [le(vals[i + 6], True), le(vals[i + 7], True), le(vals[i + 8], True)]}, i + 9
+class Rd:
+    """reader over Kani's concrete playback values: one entry per primitive kani::any() (arrays yield one entry per element)"""
+
+    def __init__(self, vals):
+        self.b = [x for v in vals for x in v]
+        self.i = 0
+
+    def take(self, n, signed=False):
+        v = int.from_bytes(bytes(self.b[self.i:self.i + n]), "little", signed=signed)
+        self.i += n
+        return v
+
+    def bytes(self, n):
+        v = list(self.b[self.i:self.i + n])
+        self.i += n
+        return v
+
+    def dt(self):
+        """any_dt(): year i32, ordinal u16, h u8, m u8, s u8, ns u32, oh i8, om i8, os i8"""
+        return {"year": self.take(4, True), "ordinal": self.take(2), "h": self.take(1), "m": self.take(1), "s": self.take(1),
+                "ns": self.take(4), "off": [self.take(1, True), self.take(1, True), self.take(1, True)]}
 
 
 def dec_time(vals):
-    d, _ = dt_json(vals, 0)
-    return {"kind": "time", "input": {"dt": d}}
+    return {"kind": "time", "input": {"dt": Rd(vals).dt()}}
 
 
 def dec_crl_order(vals):
-    a, i = dt_json(vals, 0)
-    b, _ = dt_json(vals, i)
+    r = Rd(vals)
+    a = r.dt()
+    b = r.dt()
     return {"kind": "crl", "input": {"this": a, "next": b}}
 
 
 def dec_crl_ku(vals):
-    return {"kind": "crl", "input": {"this": {"year": 2024, "ordinal": 1}, "next": {"year": 2024, "ordinal": 2}, "issuer_ku": list(vals[0][:3])}}
+    return {"kind": "crl", "input": {"this": {"year": 2024, "ordinal": 1}, "next": {"year": 2024, "ordinal": 2}, "issuer_ku": Rd(vals).bytes(3)}}
 
 
 def dec_cidr4(vals):
-    return {"kind": "cidr", "input": {"addr": list(vals[0]), "prefix": vals[1][0]}}
+    r = Rd(vals)
+    return {"kind": "cidr", "input": {"addr": r.bytes(4), "prefix": r.take(1)}}
 
 
 def dec_cidr6(vals):
-    return {"kind": "cidr", "input": {"addr": list(vals[0]), "prefix": vals[1][0]}}
+    r = Rd(vals)
+    return {"kind": "cidr", "input": {"addr": r.bytes(16), "prefix": r.take(1)}}
 
 
 def dec_ku9(vals):
-    return {"kind": "cert_params", "input": {"key_usages": sorted(set(x % 9 for x in vals[0]))}}
+    return {"kind": "cert_params", "input": {"key_usages": sorted(set(x % 9 for x in Rd(vals).bytes(9)))}}
 
 
 def dec_str(ty):
     def f(vals):
-        return {"kind": "string", "input": {"type": ty, "cp": int.from_bytes(bytes(vals[0]), "little")}}
+        return {"kind": "string", "input": {"type": ty, "cp": Rd(vals).take(4)}}
+    return f
+
+
+def dec_bytes(ty, n):
+    def f(vals):
+        return {"kind": "string_bytes", "input": {"type": ty, "bytes": Rd(vals).bytes(n)}}
     return f
 
 
 DECODERS = {"time": dec_time, "crl_order": dec_crl_order, "crl_ku": dec_crl_ku, "cidr4": dec_cidr4, "cidr6": dec_cidr6, "key_usage9": dec_ku9,
             "str_printable": dec_str("printable"), "str_ia5": dec_str("ia5"), "str_teletex": dec_str("teletex"), "str_bmp": dec_str("bmp"),
-            "str_universal": dec_str("universal")}
+            "str_universal": dec_str("universal"), "bytes_bmp3": dec_bytes("bmp", 3), "bytes_bmp4": dec_bytes("bmp", 4), "bytes_universal": dec_bytes("universal", 4)}
 
 
 def atoms_to_replay(group, atoms):
